@@ -20,7 +20,7 @@ func init() {
 		ID:    "C11",
 		Level: "model_checking",
 		Rule: "all (sequence of length 0..N, start, stop, step) with bounds in {nil} U [-N-2,N+2] U int64 extremes and steps {nil,0,+-1,+-2,+-3,+-(N+1),extremes}, and all single indices, " +
-			"for arrays of distinct ints, ASCII strings and multi-byte strings; Arr#at/Str#at called directly (and through source for N<=3) and compared with a bignum reference slice; " +
+			"for arrays of distinct ints, ASCII strings, multi-byte strings, and strings of code points that share their low byte / low 16 bits with those ASCII letters (run before and after the ASCII ones in the same process); Arr#at/Str#at called directly (and through source for N<=3) and compared with a bignum reference slice; " +
 			"non-trivial = the reference result is non-empty or an error, or a bound is out of range; distinct = distinct (kind,n,start,stop,step)",
 		Assumptions: []string{
 			"reference = Python slice.indices semantics computed with math/big positions",
@@ -46,9 +46,17 @@ var multi = []rune{'é', '日', '𝄞', 'a', 'ß', '語', '😀', 'z', 'Ω'}
 func seqRunes(kind string, n int) []rune {
 	r := make([]rune, n)
 	for i := 0; i < n; i++ {
-		if kind == "multi" {
+		switch kind {
+		case "multi":
 			r[i] = multi[i%len(multi)]
-		} else {
+		case "lowbyte":
+			// code points whose low byte (U+30xx) resp. low 16 bits (U+200xx) are the ASCII letters used by kind ascii
+			if i%2 == 0 {
+				r[i] = rune(0x3000 + 'a' + i)
+			} else {
+				r[i] = rune(0x20000 + 'a' + i)
+			}
+		default:
 			r[i] = rune('a' + i)
 		}
 	}
@@ -314,7 +322,9 @@ func ip(v int64) *int64 { return &v }
 
 func generate(maxN int, emit func(tcase)) {
 	ext := []int64{math.MinInt64, math.MinInt64 + 1, math.MaxInt64 - 1, math.MaxInt64}
-	for _, kind := range []string{"arr", "ascii", "multi"} {
+	// "lowbyte" then "ascii2" (= ascii again): one-letter results of different strings that agree in their low
+	// byte / low 16 bits are produced in both orders within one process
+	for _, kind := range []string{"arr", "ascii", "multi", "lowbyte", "ascii2"} {
 		for n := 0; n <= maxN; n++ {
 			var bounds []*int64
 			bounds = append(bounds, nil)
@@ -359,7 +369,7 @@ func run(c *core.Ctx) {
 			c.Sample(map[string]interface{}{"case": t.src(), "reference_positions": reference(t).pos})
 		}
 		e.judge(t, e.direct(t))
-		if t.N <= 3 && (t.Kind != "multi" || t.N == 3) {
+		if t.N <= 3 && (t.Kind == "arr" || t.Kind == "ascii" || t.N == 3) {
 			t.Mode = "source"
 			srcCases = append(srcCases, t)
 		}
